@@ -19,6 +19,7 @@ def run_property(prop, tier, seed, repo=None, emit=print, write=True):
     mod = importlib.import_module("sa.rules.%s" % prop.lower())
     ctx = Ctx(prop, tier=tier, seed=seed, repo=repo)
     mod.run(ctx)
+    ctx.number_constructs()
     if tier == "thorough" and hasattr(mod, "thorough"):
         mod.thorough(ctx)
     if tier == "thorough":
